@@ -41,6 +41,7 @@ def check(run):
         run.guard("C16.3.populate-before-prune", cfg, lambda: rule_order(run, F, cfg))
         run.guard("C16.4.storing", cfg, lambda: rule_store(run, F, cfg))
         run.guard("C16.4.storing", cfg + "/kind", lambda: rule_kind_table(run, F, cfg))
+        run.guard("C16.4.storing", cfg + "/normalisation", lambda: rule_same_normalisation(run, F, cfg))
         run.guard("C16.6.blanket-script-exception", cfg, lambda: rule_blanket_flag(run, F, cfg))
         run.guard("C16.7.label-walk", cfg, lambda: rule_label_walk(run, F, cfg))
         run.guard("C16.4.storing", cfg + "/hidden-generic", lambda: rule_hidden_generic_table(run, F, cfg))
@@ -49,6 +50,10 @@ def check(run):
         run.guard("C16.1.hash-agreement", cfg + "/walk-total", lambda: rule_label_walk_total(run, F, cfg))
         run.guard("C16.5.generichide", cfg + "/scope", lambda: rule_generichide_scope(run, F, cfg))
         run.guard("C16.8.independent-injections", cfg, lambda: rule_independent_injections(run, F, cfg))
+        from . import C13 as _C13r
+        b135 = run.borrow("C13", why="the scriptlets a host's `+js(..)` rules name are injected iff the resource is loaded: a rejected "
+                                     "add_resource may not leave names behind that make a later, valid registration fail")
+        run.guard("C16.via.C13.5.lookup", cfg + "/registration", lambda: _C13r.rule_registration_atomic(b135, F, cfg))
         from . import C11 as _C11
         bst = run.borrow("C11", why="the selector / scriptlet text of a cosmetic rule is everything after the separator: the "
                                     "list parser may not shorten the line before the cosmetic parser sees it")
@@ -589,6 +594,34 @@ def rule_generichide_scope(run, F, cfg):
            site=bad[0][1] if bad else "", config=cfg,
            detail="the exceptions of a host are reported also on a generichide page (they are cached by the caller and "
                   "handed back to hidden_class_id_selectors)")
+
+
+def rule_same_normalisation(run, F, cfg):
+    """An exception `host#@#sel` cancels the rule `host##sel` by equality of the stored selector texts, so both kinds go
+    through the same selector normalisation: the call of validate_css_selector in CosmeticFilter::parse (which
+    canonicalises in css-validation builds and is the identity otherwise) does not depend on the rule being an
+    exception, and it is the only source of the stored selector."""
+    f = F.fn("filters::cosmetic::CosmeticFilter::parse")
+    run.touched(f)
+    calls = f.calls(r"css_validation::validate_css_selector$")
+    bad = []
+    for b, t in calls:
+        for e in dominating_conditions(f, b):
+            if re.search(r"UNHIDE|is_unhide|unhide", e):
+                bad.append((e[:100], f.loc(b)))
+    # no selector list built by hand next to the validated one
+    # (the one hand-made wrapper is the `+js(..)` branch, which stores the scriptlet text, not a selector)
+    wraps = [b for b, i, st in f.statements() if st["k"] == "assign" and st["rv"]["k"] == "agg"
+             and st["rv"].get("variant") == "CssSelector"]
+    manual = [f.loc(b) for b in wraps if any(re.search(r"UNHIDE|is_unhide|unhide", e) for e in dominating_conditions(f, b))]
+    if len(wraps) > 1:
+        manual += [f.loc(b) for b in wraps[1:]]
+    run.ob("C16.4.storing", "exceptions-normalised-like-rules", len(calls) >= 1 and not bad and not manual,
+           f"validate_css_selector is applied to the selector of every non-scriptlet rule, hide and unhide alike ({len(calls)} call "
+           f"site(s); conditions on the exception flag: {bad[:1]}; selectors wrapped without it: {manual[:1]})",
+           site=(bad[0][1] if bad else (manual[0] if manual else f.loc(0))), config=cfg,
+           detail="in a css-validation build the rule is stored as `div > .x`, an un-normalised exception as `div>.x`: it no "
+                  "longer cancels the rule and `exceptions` lists the wrong spelling")
 
 
 def rule_label_walk_total(run, F, cfg):
